@@ -258,11 +258,38 @@ class CategoryClear(Virtual):
 
 class CategoryNargs(Virtual):
     base, method = 'Category', 'nargs'
+    is_property = True
+
+    def spec(self, I, recv, args, node):
+        return I.w.nargs(recv.e)
+
+
+class CategoryArg(Virtual):
+    """x.arg(0): the innermost result category.  Only index 0 is used in the repository and modelled."""
+    base, method = 'Category', 'arg'
+
+    def spec(self, I, recv, args, node):
+        if len(args) == 1 and args[0] == 0 and not isinstance(args[0], bool):
+            return I.w.head_atom(recv.e)
+        raise CheckerError('Category.arg is only modelled for the literal index 0')
+
+
+class ArgImpl(Impl):
+    def cases(self, I):
+        def build(I):
+            s, assumes = self.mk_self(I)
+            w = I.w
+            # lemma nargs_nonneg (induction, proved in the same run) at the fields of self
+            if self.ctor == 'Functor':
+                assumes = assumes + [w.nargs(w.acc('Functor', 'left')(s)) >= 0]
+            return [Z(s), 0], {}, assumes, {'self': s}
+        yield Case('index0', build)
 
 
 def cat_contracts():
     feq, fstr = FeatureEq(), FeatureStr()
     ceq, cstr, cxor, cclr = CategoryEq(), CategoryStr(), CategoryXor(), CategoryClear()
+    cnargs, carg = CategoryNargs(), CategoryArg()
     impls = [
         Impl(feq, 'UnaryFeature', 'UnaryFeature.__eq__', ('feat', 'str', 'foreign', 'none')),
         Impl(feq, 'TernaryFeature', 'TernaryFeature.__eq__', ('feat', 'str', 'foreign', 'none')),
@@ -277,8 +304,12 @@ def cat_contracts():
         Impl(cclr, 'Atom', 'Atom.clear_features', ('varargs',)),
         Impl(cclr, 'Functor', 'Functor.clear_features', ('varargs',)),
         FeatureParse(),
+        Impl(cnargs, 'Atom', 'Atom.nargs'),
+        Impl(cnargs, 'Functor', 'Functor.nargs'),
+        ArgImpl(carg, 'Atom', 'Atom.arg'),
+        ArgImpl(carg, 'Functor', 'Functor.arg'),
     ]
-    virtuals = [feq, fstr, ceq, cstr, cxor, cclr]
+    virtuals = [feq, fstr, ceq, cstr, cxor, cclr, cnargs, carg]
     table = {}
     for c in virtuals + impls:
         table[c.name] = c
